@@ -276,3 +276,6 @@ func ZZ_C19_binary_roundtrip_sequence() {
 	}
 	zzvAssert("all-consumed", len(rest) == 0)
 }
+
+// C09 (round 2): the mapping part of the protobuf round trip, for every base and offset (offset 0 included)
+func ZZ_C09_mapping_proto_roundtrip() { ZZ_C19_proto_roundtrip() }
